@@ -54,7 +54,7 @@ def random_walk(rng, alpha, tid, n):
     revs = [{"t": "attach"}]
     # mostly start with a logon in one of the two roles
     r = rng.random()
-    logon_in = next(e for e in frames if e["f"]["kind"] == "LOGON" and e["f"]["rel"] == 0)
+    logon_in = next(e for e in frames if e["f"]["kind"] == "LOGON" and e["f"]["rel"] == 0 and e["f"]["hdr"] == "ok")
     logon_out = next(e for e in sends if e["m"]["kind"] == "LOGON")
     if r < 0.45:
         revs.append(logon_in)
@@ -185,7 +185,13 @@ def run_property(ctx, out, prop, extra_specs=()):
     ctx.log("executing %d traces on a real connection" % len(specs))
     recs = pmap(session.run_trace, specs)
     nsteps = sum(len(r["steps"]) for r in recs)
-    ctx.log("evaluating %d steps with TLC (SessionEval)" % nsteps)
+    # vacuity guard: the random walks must really log on (a harness that picks a broken Logon would make them idle)
+    walks = [r for r in recs if r["id"].startswith("w")]
+    active = sum(1 for r in walks if any(st["post"]["cs"] == "ACTIVE" for st in r["steps"]))
+    out.extra["random_walks_reaching_ACTIVE"] = active
+    if walks and active < 0.5 * len(walks):
+        raise tlc.MachineryError("vacuity: only %d of %d random walks reached ACTIVE" % (active, len(walks)))
+    ctx.log("evaluating %d steps with TLC (SessionEval); %d of %d random walks reach ACTIVE" % (nsteps, active, len(walks)))
     verd = evaluate(ctx, recs)
     collect(ctx, out, prop, recs, verd, specs)
     out.samples = [{"id": r["id"], "events": [s["ev"] for s in r["steps"]][:12]} for r in (recs[len(recs) // 3], recs[-1])]
